@@ -15,6 +15,17 @@ from amaranth import *
 from ..harness import Harness
 from ..engine import Query
 
+# FINDINGS
+#  open   known_findings.json, scenario kf_stream_not_clean (TSBurstDetector failure handling, low severity):
+#         - `only_consecutive_sets`: after a set followed by a cycle without valid, WAIT_FOR_FIRST skips non-matching valid
+#           words without clearing consecutive_set_count (set, gap, garbage, set counts as two consecutive sets), while the
+#           same garbage directly after a set does clear it;
+#         - `reports_every_burst`: NONE_DETECTED (also the reset state) swallows one word unchecked and a first word that
+#           arrives mid-set is not taken as a new start, so a corrupted last word / truncated set also loses the next set.
+#         Outside the scenario (streams in which, after the first matching word, every valid word continues a set, and no
+#         valid word arrives in the first cycle after reset) both assertions hold; `never_on_other_data` and `config_bits`
+#         hold unconditionally.  A 15-line patch (restart_on_mismatch, no NONE_DETECTED state) makes all of them hold.
+
 PROP = "C43"
 ENCODED = [
     "luna/gateware/usb/usb3/link/ordered_sets.py: TSEmitter.elaborate (word sequencing, config bits, done, restart)",
